@@ -1,0 +1,6 @@
+//go:build !verif
+
+package npm
+
+// verifDumpTree is a no-op without the "verif" build tag.
+func verifDumpTree(*treeNode) {}
